@@ -8,20 +8,26 @@
 (* State mirrored                                                           *)
 (*   files    the names under <layout>/blobs/<alg>/ (digest named files and *)
 (*            *.tmp files)                                                  *)
-(*   idx      index.json: set of <<ref.name annotation or "", digest>>      *)
+(*   idx      index.json: set of <<ref.name annotation or "", digest>>;     *)
+(*            hasidx: the file exists (the first manifestPut creates it;    *)
+(*            a BlobPut only creates oci-layout)                            *)
 (*   modRefs  OCIDir.modRefs: r.Path -> ociGC{mod, locks} (ex = key present)*)
 (*   per ImageCopy call c (image.go): cst (idle / run / fail / ok / err),   *)
-(*   act (running imageCopyOpt instances), got (source manifests fetched),  *)
-(*   tmpf (BlobPut between CreateTemp and Rename), fin (opt.seen entries    *)
-(*   that are done), rl (referrer lists fetched)                            *)
+(*   act (running imageCopyOpt instances), need (looked up in the layout,   *)
+(*   not there: to be fetched from the source), hit (what the target tag    *)
+(*   named when the copy looked), got (source manifests fetched), tmpf      *)
+(*   (BlobPut between CreateTemp and Rename), fin (opt.seen entries that    *)
+(*   are done), rl (referrer lists fetched)                                 *)
 (*                                                                          *)
 (* Actions -> code                                                          *)
 (*   CopyBegin        image.go:ImageCopy, GCLock (ocidir.go:GCLock)         *)
-(*   CopyHeadSame     imageCopyOpt: ManifestHead(tgt) hit by tag, source    *)
-(*                    HEAD has the same digest -> nothing is written        *)
-(*   CopySkip         imageCopyOpt: child already in the layout (by digest) *)
+(*   CopyCheck        imageCopyOpt: ManifestHead(tgt): by tag for the root  *)
+(*                    (the digest found is remembered), by digest for a     *)
+(*                    child (already in the layout -> not descended into)   *)
+(*   CopyHeadSame     imageCopyOpt: the tag was found, the source HEAD has  *)
+(*                    the same digest -> nothing is written                 *)
 (*   CopyFetch        imageCopyOpt: ManifestGet(src); children started      *)
-(*   CopyBlobSkip     blob.go:BlobCopy, BlobHead(tgt) hit                   *)
+(*   CopyBlobCheck    blob.go:BlobCopy, BlobHead(tgt): hit -> done          *)
 (*   CopyBlobStart    BlobCopy: BlobGet(src) + ocidir/blob.go:BlobPut up to *)
 (*                    the temp file                                         *)
 (*   CopyBlobCommit   BlobPut: rename + refMod (fails when the temp file is *)
@@ -58,8 +64,8 @@
 (* ManifestHead on the layout is folded into the step that follows it; the  *)
 (* put throttle (3 per path) and the order in which goroutines of one copy  *)
 (* are admitted are not modelled (any order is allowed); I/O errors other   *)
-(* than a vanished temp file are not modelled; index.json entries form a    *)
-(* set (duplicate entries: C06).                                            *)
+(* than a vanished temp file and a missing index.json are not modelled;     *)
+(* index.json entries form a set (duplicate entries: C06).                  *)
 (***************************************************************************)
 EXTENDS Naturals, Integers, FiniteSets, Sequences, TLC
 
@@ -68,8 +74,8 @@ CONSTANTS Copies,     \* ids of the ImageCopy calls, e.g. {"c1", "c2"}
           MaxCloses,  \* number of rc.Close calls
           MaxOps      \* number of other API calls (deletes, pushes)
 
-VARIABLES conf, files, idx, modRefs, cst, act, got, tmpf, fin, rl, closes, ops
-vars == <<conf, files, idx, modRefs, cst, act, got, tmpf, fin, rl, closes, ops>>
+VARIABLES conf, files, idx, hasidx, modRefs, cst, act, need, hit, got, tmpf, fin, rl, closes, ops
+vars == <<conf, files, idx, hasidx, modRefs, cst, act, need, hit, got, tmpf, fin, rl, closes, ops>>
 
 -----------------------------------------------------------------------------
 (* The catalogue of image graphs held by the source registry.               *)
@@ -166,9 +172,12 @@ Init ==
   /\ conf \in Confs
   /\ files = PreFiles \cup conf.plant
   /\ idx = {<<p[2], p[1]>> : p \in conf.pre}
+  /\ hasidx = (conf.pre # {})
   /\ modRefs = [k \in Keys |-> NoEntry]
   /\ cst = [c \in Copies |-> "idle"]
   /\ act = [c \in Copies |-> {}]
+  /\ need = [c \in Copies |-> {}]
+  /\ hit = [c \in Copies |-> "none"]
   /\ got = [c \in Copies |-> {}]
   /\ tmpf = [c \in Copies |-> {}]
   /\ fin = [c \in Copies |-> {}]
@@ -184,47 +193,58 @@ CopyBegin(c) ==
   /\ cst' = [cst EXCEPT ![c] = "run"]
   /\ act' = [act EXCEPT ![c] = {CP(c).root}]
   /\ modRefs' = GCLock(modRefs, CP(c).key)
-  /\ UNCHANGED <<conf, files, idx, got, tmpf, fin, rl, closes, ops>>
+  /\ UNCHANGED <<conf, files, idx, hasidx, need, hit, got, tmpf, fin, rl, closes, ops>>
 
-\* the tag already names this digest (and the file exists): source HEAD, then nothing to do
-TagHit(c) == TagAt(idx, CP(c).tag) # "none" /\ TagAt(idx, CP(c).tag) \in files
+\* ManifestHead on the layout.  Root: by tag, the digest found is kept for the comparison with the
+\* source.  Child: by digest; a file that is already there is not descended into.
+TagHitNow(c) == IF hasidx /\ TagAt(idx, CP(c).tag) # "none" /\ TagAt(idx, CP(c).tag) \in files
+                THEN TagAt(idx, CP(c).tag) ELSE "none"
+Unchecked(c, n) == n \in act[c] /\ n \notin need[c] /\ n \notin got[c]
+CopyCheck(c, n) ==
+  /\ cst[c] = "run" /\ Unchecked(c, n)
+  /\ IF n = CP(c).root
+     THEN /\ hit' = [hit EXCEPT ![c] = TagHitNow(c)]
+          /\ need' = [need EXCEPT ![c] = @ \cup {n}]
+          /\ UNCHANGED <<act, fin>>
+     ELSE IF n \in files /\ ~CP(c).refs
+          THEN /\ act' = [act EXCEPT ![c] = @ \ {n}]
+               /\ fin' = [fin EXCEPT ![c] = @ \cup {n}]
+               /\ UNCHANGED <<need, hit>>
+          ELSE /\ need' = [need EXCEPT ![c] = @ \cup {n}]
+               /\ UNCHANGED <<act, fin, hit>>
+  /\ UNCHANGED <<conf, files, idx, hasidx, modRefs, cst, got, tmpf, rl, closes, ops>>
+
+\* the tag already named this digest: source HEAD, then nothing to do
+SameAsTarget(c) == ~CP(c).refs /\ hit[c] = CP(c).root
 CopyHeadSame(c) ==
   LET n == CP(c).root IN
-  /\ cst[c] = "run" /\ n \in act[c] /\ n \notin got[c] /\ ~CP(c).refs
-  /\ TagHit(c) /\ TagAt(idx, CP(c).tag) = n
+  /\ cst[c] = "run" /\ n \in act[c] /\ n \in need[c] /\ n \notin got[c] /\ SameAsTarget(c)
   /\ act' = [act EXCEPT ![c] = @ \ {n}]
   /\ fin' = [fin EXCEPT ![c] = @ \cup {n}]
-  /\ UNCHANGED <<conf, files, idx, modRefs, cst, got, tmpf, rl, closes, ops>>
-
-\* a child (copied by digest) whose file is already in the layout is not descended into
-CopySkip(c, n) ==
-  /\ cst[c] = "run" /\ n \in act[c] /\ n \notin got[c] /\ n # CP(c).root /\ ~CP(c).refs
-  /\ n \in files
-  /\ act' = [act EXCEPT ![c] = @ \ {n}]
-  /\ fin' = [fin EXCEPT ![c] = @ \cup {n}]
-  /\ UNCHANGED <<conf, files, idx, modRefs, cst, got, tmpf, rl, closes, ops>>
+  /\ UNCHANGED <<conf, files, idx, hasidx, modRefs, cst, need, hit, got, tmpf, rl, closes, ops>>
 
 CopyFetch(c, n) ==
-  /\ cst[c] = "run" /\ n \in act[c] /\ n \notin got[c]
-  /\ IF n = CP(c).root THEN ~(~CP(c).refs /\ TagHit(c) /\ TagAt(idx, CP(c).tag) = n)
-     ELSE CP(c).refs \/ n \notin files
+  /\ cst[c] = "run" /\ n \in act[c] /\ n \in need[c] /\ n \notin got[c]
+  /\ n = CP(c).root => ~SameAsTarget(c)
   /\ got' = [got EXCEPT ![c] = @ \cup {n}]
   /\ act' = [act EXCEPT ![c] = @ \cup (Sel(c, n) \ fin[c])]
-  /\ UNCHANGED <<conf, files, idx, modRefs, cst, tmpf, fin, rl, closes, ops>>
+  /\ UNCHANGED <<conf, files, idx, hasidx, modRefs, cst, need, hit, tmpf, fin, rl, closes, ops>>
 
+\* BlobHead on the layout when the blob's goroutine starts; the GET may wait a long time after it
 BlobWanted(c, b) == \E n \in act[c] \cap got[c] : b \in Blb(n)
-CopyBlobSkip(c, b) ==
-  /\ cst[c] = "run" /\ BlobWanted(c, b) /\ b \notin fin[c] /\ b \notin tmpf[c]
-  /\ b \in files
-  /\ fin' = [fin EXCEPT ![c] = @ \cup {b}]
-  /\ UNCHANGED <<conf, files, idx, modRefs, cst, act, got, tmpf, rl, closes, ops>>
+CopyBlobCheck(c, b) ==
+  /\ cst[c] = "run" /\ BlobWanted(c, b) /\ b \notin fin[c] /\ b \notin tmpf[c] /\ b \notin need[c]
+  /\ IF b \in files
+     THEN fin' = [fin EXCEPT ![c] = @ \cup {b}] /\ need' = need
+     ELSE need' = [need EXCEPT ![c] = @ \cup {b}] /\ fin' = fin
+  /\ UNCHANGED <<conf, files, idx, hasidx, modRefs, cst, act, hit, got, tmpf, rl, closes, ops>>
 
 CopyBlobStart(c, b) ==
-  /\ cst[c] = "run" /\ BlobWanted(c, b) /\ b \notin fin[c] /\ b \notin tmpf[c]
-  /\ b \notin files
+  /\ cst[c] = "run" /\ b \in need[c] /\ b \notin Mans
+  /\ need' = [need EXCEPT ![c] = @ \ {b}]
   /\ tmpf' = [tmpf EXCEPT ![c] = @ \cup {b}]
   /\ files' = files \cup {Tmp(c, b)}
-  /\ UNCHANGED <<conf, idx, modRefs, cst, act, got, fin, rl, closes, ops>>
+  /\ UNCHANGED <<conf, idx, hasidx, modRefs, cst, act, hit, got, fin, rl, closes, ops>>
 
 CopyBlobCommit(c, b) ==
   /\ cst[c] = "run" /\ b \in tmpf[c]
@@ -236,47 +256,52 @@ CopyBlobCommit(c, b) ==
           /\ cst' = cst
      ELSE /\ cst' = [cst EXCEPT ![c] = "fail"]          \* rename: no such file
           /\ UNCHANGED <<files, modRefs, fin>>
-  /\ UNCHANGED <<conf, idx, act, got, rl, closes, ops>>
+  /\ UNCHANGED <<conf, idx, hasidx, act, need, hit, got, rl, closes, ops>>
 
-ContentDone(c, n) == n \in got[c] /\ Sel(c, n) \subseteq fin[c] /\ Blb(n) \subseteq fin[c]
+\* the referrer list is asked for while the children and blobs of n are still being copied
 CopyRefList(c, n) ==
-  /\ cst[c] = "run" /\ CP(c).refs /\ n \in act[c] /\ ContentDone(c, n) /\ n \notin rl[c]
+  /\ cst[c] = "run" /\ CP(c).refs /\ n \in act[c] /\ n \in got[c] /\ n \notin rl[c]
   /\ rl' = [rl EXCEPT ![c] = @ \cup {n}]
   /\ act' = [act EXCEPT ![c] = @ \cup (Referrers(n) \ fin[c])]
-  /\ UNCHANGED <<conf, files, idx, modRefs, cst, got, tmpf, fin, closes, ops>>
+  /\ UNCHANGED <<conf, files, idx, hasidx, modRefs, cst, need, hit, got, tmpf, fin, closes, ops>>
 
+ContentDone(c, n) == /\ n \in got[c] /\ Sel(c, n) \subseteq fin[c] /\ Blb(n) \subseteq fin[c]
+                     /\ CP(c).refs => (n \in rl[c] /\ Referrers(n) \subseteq fin[c])
 CopyPutManifest(c, n) ==
   /\ cst[c] = "run" /\ n \in act[c] /\ ContentDone(c, n)
-  /\ CP(c).refs => (n \in rl[c] /\ Referrers(n) \subseteq fin[c])
   /\ LET r == ManPut(files, idx, n, CP(c).tag, n # CP(c).root) IN
      /\ files' = r.files
      /\ idx' = r.idx
      /\ cst' = IF r.ok THEN cst ELSE [cst EXCEPT ![c] = "fail"]
+  /\ hasidx' = TRUE
   /\ modRefs' = RefMod(modRefs, CP(c).key)
   /\ act' = [act EXCEPT ![c] = @ \ {n}]
   /\ fin' = [fin EXCEPT ![c] = @ \cup {n}]
-  /\ UNCHANGED <<conf, got, tmpf, rl, closes, ops>>
+  /\ UNCHANGED <<conf, need, hit, got, tmpf, rl, closes, ops>>
 
 CopyEnd(c) ==
   /\ cst[c] = "run" /\ act[c] = {} /\ tmpf[c] = {}
   /\ cst' = [cst EXCEPT ![c] = "ok"]
   /\ modRefs' = GCUnlock(modRefs, CP(c).key)
-  /\ UNCHANGED <<conf, files, idx, act, got, tmpf, fin, rl, closes, ops>>
+  /\ UNCHANGED <<conf, files, idx, hasidx, act, need, hit, got, tmpf, fin, rl, closes, ops>>
 
-\* a request to the source fails: the error is returned once the running puts have finished
-SrcPending(c) == \E n \in act[c] : n \notin got[c] \/ (CP(c).refs /\ ContentDone(c, n) /\ n \notin rl[c])
-                 \/ \E b \in Blb(n) : n \in got[c] /\ b \notin fin[c] /\ b \notin tmpf[c] /\ b \notin files
+\* a request to the source fails (counted as one of the MaxOps other events): the error is
+\* returned once the running puts have finished
+SrcPending(c) == \E n \in act[c] : (n \in need[c] /\ n \notin got[c]) \/ (CP(c).refs /\ n \in got[c] /\ n \notin rl[c])
+                 \/ \E b \in need[c] : b \notin Mans
 CopyAbort(c) ==
-  /\ cst[c] = "run" /\ conf.faults /\ tmpf[c] = {} /\ SrcPending(c)
+  /\ cst[c] = "run" /\ conf.faults /\ ops < MaxOps /\ tmpf[c] = {} /\ SrcPending(c)
+  /\ ops' = ops + 1
   /\ cst' = [cst EXCEPT ![c] = "fail"]
-  /\ UNCHANGED <<conf, files, idx, modRefs, act, got, tmpf, fin, rl, closes, ops>>
+  /\ UNCHANGED <<conf, files, idx, hasidx, modRefs, act, need, hit, got, tmpf, fin, rl, closes>>
 
 CopyFailEnd(c) ==
   /\ cst[c] = "fail" /\ tmpf[c] = {}
   /\ cst' = [cst EXCEPT ![c] = "err"]
   /\ act' = [act EXCEPT ![c] = {}]
+  /\ need' = [need EXCEPT ![c] = {}]
   /\ modRefs' = GCUnlock(modRefs, CP(c).key)
-  /\ UNCHANGED <<conf, files, idx, got, tmpf, fin, rl, closes, ops>>
+  /\ UNCHANGED <<conf, files, idx, hasidx, hit, got, tmpf, fin, rl, closes, ops>>
 
 \* a put that was between temp file and rename when the copy failed still finishes (or fails)
 CopyFailDrain(c, b) ==
@@ -286,10 +311,11 @@ CopyFailDrain(c, b) ==
      THEN /\ files' = (files \ {Tmp(c, b)}) \cup {b}
           /\ modRefs' = RefMod(modRefs, CP(c).key)
      ELSE UNCHANGED <<files, modRefs>>
-  /\ UNCHANGED <<conf, idx, cst, act, got, fin, rl, closes, ops>>
+  /\ UNCHANGED <<conf, idx, hasidx, cst, act, need, hit, got, fin, rl, closes, ops>>
 
 \* ---- the collector ----
-GCRuns(k) == conf.gc /\ modRefs[k].ex /\ modRefs[k].mod /\ modRefs[k].locks = 0
+\* (readIndex fails while index.json does not exist: Close returns the error, nothing changes)
+GCRuns(k) == conf.gc /\ modRefs[k].ex /\ modRefs[k].mod /\ modRefs[k].locks = 0 /\ hasidx
 Close(k) ==
   /\ closes < MaxCloses
   /\ closes' = closes + 1
@@ -297,34 +323,35 @@ Close(k) ==
      THEN /\ files' = files \cap MarkAll(files, idx)
           /\ modRefs' = [modRefs EXCEPT ![k] = NoEntry]
      ELSE UNCHANGED <<files, modRefs>>
-  /\ UNCHANGED <<conf, idx, cst, act, got, tmpf, fin, rl, ops>>
+  /\ UNCHANGED <<conf, idx, hasidx, cst, act, need, hit, got, tmpf, fin, rl, ops>>
 
 \* ---- other calls through the same client (no GC lock) ----
 Op == ops < MaxOps /\ ops' = ops + 1
+CopyVars == <<cst, act, need, hit, got, tmpf, fin, rl>>
 TagDelete(t) ==
-  /\ Op /\ t # "" /\ t \in conf.tdels /\ \E e \in idx : e[1] = t
+  /\ Op /\ t # "" /\ t \in conf.tdels /\ hasidx /\ \E e \in idx : e[1] = t
   /\ idx' = {e \in idx : e[1] # t}
   /\ modRefs' = RefMod(modRefs, conf.okey)
-  /\ UNCHANGED <<conf, files, cst, act, got, tmpf, fin, rl, closes>>
+  /\ UNCHANGED <<conf, files, hasidx, CopyVars, closes>>
 
 ManifestDelete(n) ==
-  /\ Op /\ n \in conf.dels /\ n \in files
+  /\ Op /\ n \in conf.dels /\ hasidx /\ n \in files
   /\ LET r == IF Cat[n].subj = "" THEN [ok |-> FALSE, files |-> files, idx |-> idx] ELSE RefDel(files, idx, n) IN
      /\ idx' = {e \in r.idx : e[2] # n}
      /\ files' = r.files \ {n}
   /\ modRefs' = RefMod(modRefs, conf.okey)
-  /\ UNCHANGED <<conf, cst, act, got, tmpf, fin, rl, closes>>
+  /\ UNCHANGED <<conf, hasidx, CopyVars, closes>>
 
 PushBlob(b) ==
   /\ Op /\ b \in conf.pblobs
   /\ files' = files \cup {b}
   /\ modRefs' = RefMod(modRefs, conf.okey)
-  /\ UNCHANGED <<conf, idx, cst, act, got, tmpf, fin, rl, closes>>
+  /\ UNCHANGED <<conf, idx, hasidx, CopyVars, closes>>
 
 PushBlobBad ==
   /\ Op /\ conf.badput /\ "tmp-bad" \notin files
   /\ files' = files \cup {"tmp-bad"}
-  /\ UNCHANGED <<conf, idx, modRefs, cst, act, got, tmpf, fin, rl, closes>>
+  /\ UNCHANGED <<conf, idx, hasidx, modRefs, CopyVars, closes>>
 
 \* p = <<manifest, tag | "" (by digest) | "child">>
 PushManifest(p) ==
@@ -332,13 +359,14 @@ PushManifest(p) ==
   /\ LET r == ManPut(files, idx, p[1], IF p[2] = "child" THEN "" ELSE p[2], p[2] = "child") IN
      /\ files' = r.files
      /\ idx' = r.idx
+  /\ hasidx' = TRUE
   /\ modRefs' = RefMod(modRefs, conf.okey)
-  /\ UNCHANGED <<conf, cst, act, got, tmpf, fin, rl, closes>>
+  /\ UNCHANGED <<conf, CopyVars, closes>>
 
 -----------------------------------------------------------------------------
 \* steps that wait for nothing outside the process (run as soon as they are enabled)
-Internal(c) == \/ \E n \in Mans : CopySkip(c, n) \/ CopyPutManifest(c, n)
-               \/ \E b \in Nodes : CopyBlobSkip(c, b) \/ CopyBlobCommit(c, b) \/ CopyFailDrain(c, b)
+Internal(c) == \/ \E n \in Mans : CopyCheck(c, n) \/ CopyPutManifest(c, n)
+               \/ \E b \in Nodes : CopyBlobCheck(c, b) \/ CopyBlobCommit(c, b) \/ CopyFailDrain(c, b)
                \/ CopyEnd(c) \/ CopyFailEnd(c)
 \* steps that wait for a reply of the source registry
 Gated(c) == \/ CopyHeadSame(c) \/ CopyAbort(c)
@@ -362,6 +390,7 @@ TypeOK ==
   /\ \A x \in files : x \in Nodes \/ IsTmp(x)
   /\ \A e \in idx : e[2] \in Mans
   /\ \A k \in Keys : modRefs[k].locks \in Nat
+  /\ idx # {} => hasidx
 LocksNonNeg == \A k \in Keys : modRefs[k].locks >= 0
 \* the lock count of a path is the number of copies in progress with that path; in particular an
 \* entry is never deleted (by Close, or by anything else) while it carries a positive count
